@@ -20,6 +20,7 @@ func init() {
 			"(R08.3) coverage floors for the SSA value kinds handled by recordArgReflected, relatedParam, checkFunction and checkMethodSignature (a removed case is a violation, an added one is not); " +
 			"(R08.4) the fix-point is free of pruning state: which calls checkFunction examines depends only on the accumulated result sets, never on 'already checked' maps, and the name pairs are emitted in sorted order; " +
 			"(R08.5) the injection chain agrees: the text abiNamePatch replaces occurs exactly once in the pinned toolchain's internal/abi/type.go, the two linknamed functions have the same names on both sides, and the name table is looked up under the right spelling of its variable. " +
+			"(R08.6) the method-signature heuristic marks unnamed struct types only; " +
 			"(R07.2, shared with C07) the facts of a dependency whose cache entry is missing are recomputed whenever the dependency can reach reflect at all (transitively), merged and stored. " +
 			"Does not decide the soundness of the taint heuristic over all data flows, nor the injected replacer's algorithm.",
 		perConfig: checkC08,
@@ -351,6 +352,64 @@ func checkC08(c *Ctx) {
 		c.Check(varName != "" && strings.Contains(string(code), "var "+varName+" = []string{}"), "R08.5", "name table variable "+varName, w.Pos(rp.Pos()),
 			"declared as an empty []string in the injected code, filled by text replacement", "reflectMainPostPatch fills "+varName+", which the injected code does not declare as `var "+varName+" = []string{}`")
 	}
+	ruleMethodSignatureUnnamedOnly(c)
+}
+
+// ruleMethodSignatureUnnamedOnly is R08.6. The heuristic "an exported method with an
+// unnamed struct parameter keeps that struct's names" must stay restricted to *unnamed*
+// struct types (which cannot be told apart from their uses in reflection-based callers).
+// A struct test made on Underlying() also matches every named struct: its name, its
+// fields and everything reachable from them are then kept verbatim in the binary (C02),
+// for types that never reach reflection.
+func ruleMethodSignatureUnnamedOnly(c *Ctx) {
+	w := c.W
+	c.Rule("R08.6", "the method-signature heuristic marks unnamed struct types only (the struct test is not made on Underlying())", 1)
+	cms := w.Fn("(*reflectInspector).checkMethodSignature")
+	if cms == nil {
+		c.Undecided("R08.6", "checkMethodSignature", "", "function not found")
+		return
+	}
+	fns := []*ssa.Function{cms}
+	seen := map[*ssa.Function]bool{cms: true}
+	for name, fn := range w.funcs { // the body of "for param := range sig.Params().Variables()"
+		if strings.HasPrefix(name, "(*reflectInspector).checkMethodSignature$") {
+			fns = append(fns, fn)
+			seen[fn] = true
+		}
+	}
+	for i := 0; i < len(fns) && i < 8; i++ {
+		for _, b := range fns[i].Blocks {
+			for _, in := range b.Instrs {
+				if call, ok := in.(*ssa.Call); ok {
+					if callee := call.Call.StaticCallee(); callee != nil && callee.Pkg == cms.Pkg && !seen[callee] &&
+						!strings.Contains(callee.Name(), "recursivelyRecordUsedForReflect") {
+						seen[callee] = true
+						fns = append(fns, callee)
+					}
+				}
+			}
+		}
+	}
+	n, bad := 0, ""
+	for _, fn := range fns {
+		for _, b := range fn.Blocks {
+			for _, in := range b.Instrs {
+				ta, ok := in.(*ssa.TypeAssert)
+				if !ok || !strings.HasSuffix(ta.AssertedType.String(), "types.Struct") {
+					continue
+				}
+				n++
+				if w.BackSlice(ta.X, sliceOpt{}).HasCall("(go/types.Type).Underlying") {
+					bad = "the struct test at " + w.Pos(ta.Pos()) + " (" + w.FuncName(fn) + ") is made on Underlying(): named struct types in []S / [N]S parameters of exported methods are treated as reflected, and their names and fields stay in the binary"
+				}
+			}
+		}
+	}
+	if n == 0 {
+		c.Undecided("R08.6", "checkMethodSignature struct tests", w.Pos(cms.Pos()), "no *types.Struct test found: the heuristic is not where it used to be")
+		return
+	}
+	c.Check(bad == "", "R08.6", "checkMethodSignature struct tests", w.Pos(cms.Pos()), fmt.Sprintf("%d tests, all on the type itself", n), bad)
 }
 
 var abiFind string
